@@ -236,6 +236,17 @@ def check(ctx: Ctx) -> None:
     check_apply(ctx)
     check_diffbase_guard(ctx)
     check_detect_causes(ctx)
+    # R3.3 in full (= R2.6/R2.7): the cycle is closed -- records purged, last-handled state stored, "handled once" flag set -- exactly when every
+    # selected handler has finished or none was selected; progress is stored on every other path (so an unfinished handler is retried)
+    from . import C02, C08, _prc
+    C02.check_cycle_closing(ctx, rule_order='R3.3', rule_guard='R3.3')
+    # R3.6: nothing left over from an earlier cycle can block handling forever: the carried-forward patch is replaced after every apply(),
+    # and (table A.3) only a non-empty patch at entry or an awaited version make a cycle skip the state-dependent handlers
+    C08.check_carry_forward(ctx, rule_prefix='R3.6')
+    _prc.check_table(ctx, 'R3.6', 'process_resource_causes (Appendix A.3): state-dependent handlers are skipped only for a non-empty patch at entry, an awaited '
+                     'version, or a finalizer-only cycle')
+    # R3.7: an unfinished handler always yields a delay or is awake (so that apply() sleeps and touches, i.e. the next cycle is triggered)
+    C02.check_formulas(ctx, rule='R3.7')
 
 
 SPEC = PropSpec(
